@@ -301,6 +301,9 @@ def evaluate(desc, refs, res):
     for rec in res["records"]:
         if rec[0] in ("crash", "wdead", "hang") or (rec[0] == "terminate" and rec[2] > 0) or rec[0] == "global-fault":
             killed = True
+    for rec in res["records"]:
+        if rec[0] == "out" and rec[2] == "sim" and rec[3].startswith("interrupt-line") and "cleanup=1" in rec[3]:
+            killed = True  # the interrupt landed inside the clean-up code itself
     remove_faulted = any(o["kind"] == "remove" and o["fault"] for o in ops) or any(
         o["kind"] == "remove" and o["err"] not in (None, "FileNotFoundError") for o in ops
     )
@@ -425,6 +428,24 @@ def run_job(job, env):
             out.account(d, r2, V2, (_shape(base), "raise", k), nontrivial=True, fault_kind="raise")
             if isinstance(V2, list) and V2:
                 out.violation(d, V2)
+        # Ctrl-C between any two lines of the write-back functions (sys.settrace, vsg/apply_rules.py)
+        if part == 1 % SWEEP_PARTS:
+            dl = copy.deepcopy(base)
+            dl["interrupt_line"] = 10**9
+            rl = env.run(dl)
+            nlines = ((rl.get("end") or {}).get("lines") or 0) if isinstance(rl, dict) else 0
+            want = list(range(1, nlines + 1))
+            if job.get("sizes") == "light" and len(want) > 14:
+                step = len(want) / 14.0
+                want = sorted({want[int(i * step)] for i in range(14)})
+            for k in want:
+                d = copy.deepcopy(base)
+                d["interrupt_line"] = k
+                V2, r2 = judge(d, env, refs)
+                out.account(d, r2, V2, (_shape(base), "interrupt-line", k), nontrivial=True)
+                if isinstance(V2, list) and V2:
+                    out.violation(d, V2)
+            out.stat("interrupt_line_points", len(want))
         if part == 0:
             out.stat("sweep_workloads", 1)
             out.stat("sweep_ops", len([o for o in ops if o["task"] != "main"]))
